@@ -122,12 +122,12 @@ def run(ctx: Any) -> None:
     rng = ctx.rng
     quick = ctx.tier == "quick"
 
-    apps: dict[tuple[int | None, bool], Any] = {}
+    apps: dict[tuple[int | None, bool, str], Any] = {}
 
-    def app_for(cap: int | None, zd: bool) -> Any:
-        key = (cap, zd)
+    def app_for(cap: int | None, zd: bool, prefix: str = "") -> Any:
+        key = (cap, zd, prefix)
         if key not in apps:
-            apps[key] = drv.build_app(cap, zd, compression_level=rng.choice([1, None, 3]))
+            apps[key] = drv.build_app(cap, zd, compression_level=rng.choice([1, None, 3]) if prefix == "" else 1, prefix=prefix)
         return apps[key][0]
 
     _, srv0 = drv.build_app(None, False)
@@ -240,8 +240,9 @@ def run(ctx: Any) -> None:
 
     cases: list[dict[str, Any]] = []
 
-    def add(label: str, cap: int | None, body: bytes, ce: str | None, *, zd: bool = False, cl: Any = "actual", via: str = "environ", sizes: list[int] | None = None) -> None:
-        cases.append({"label": label, "cap": cap, "zd": zd, "body": body, "ce": ce, "cl": cl, "via": via, "sizes": sizes or [4096]})
+    def add(label: str, cap: int | None, body: bytes, ce: str | None, *, zd: bool = False, cl: Any = "actual", via: str = "environ", sizes: list[int] | None = None,
+            prefix: str = "", route: str = "/f") -> None:
+        cases.append({"label": label, "cap": cap, "zd": zd, "body": body, "ce": ce, "cl": cl, "via": via, "sizes": sizes or [4096], "prefix": prefix, "route": route})
 
     small = req_of(300)
     mid = req_of(70000)  # decoded size crosses one chunk
@@ -355,6 +356,20 @@ def run(ctx: Any) -> None:
                 pass
         add("random", cap, body, ce, zd=rng.random() < 0.2, cl=rng.choice(["actual"] * 8 + [None, len(body) + 1]))
 
+    # I. routes: RPC methods whose NAME starts with the name of the (cap-exempt) health endpoint, with and without a URL
+    #    prefix; at-cap and over-cap bodies per coding.  Only {prefix}/health itself (and below) is exempt.
+    for pfx in ("", "/vgi"):
+        for meth, route in (("f", "/f"), ("healthz", "/healthz"), ("health_check", "/health_check"), ("healthcheck", "/healthcheck/init")):
+            payload = request_bytes(meth, srv0._methods[meth].params_schema, {"data": (b"route " * 60)[:300]})
+            for enc_r in ("none", "identity", "gzip", "zstd"):
+                body = {"none": payload, "identity": payload, "gzip": drv.gzip_body(payload, 6), "zstd": drv.zstd_honest(payload, 3)}[enc_r]
+                W, D = len(body), len(payload)
+                for cap in sorted({W - 1, W} | ({D - 1, D} if enc_r in ("gzip", "zstd") else set())):
+                    add(f"route{route}", cap, body, hdr_of(enc_r), prefix=pfx, route=route)
+        hp = request_bytes("health", srv0._methods["health"].params_schema, {"data": b"h" * 300})
+        add("route/health(exempt)", len(hp) - 1, hp, None, prefix=pfx, route="/health")
+        add("route/health(exempt)", len(hp), hp, "identity", prefix=pfx, route="/health")
+
     ctx.rule = (
         "cases = (max_request_bytes | none) x VGI_HTTP_DISABLE_ZSTD x Content-Length {actual, lying, absent, chunked via waitress} x "
         "Content-Encoding value x body; bodies: requests of 0..1 MiB (random / zeros / text) plain or gzip(level 0-9) / zstd with "
@@ -379,7 +394,8 @@ def run(ctx: Any) -> None:
         ctx.violation(
             key, what,
             {
-                "max_request_bytes": case["cap"], "zstd_disabled": case["zd"], "content_encoding": case["ce"], "content_length": case["cl"],
+                "max_request_bytes": case["cap"], "zstd_disabled": case["zd"], "url_prefix": case["prefix"], "path": case["prefix"] + case["route"],
+                "content_encoding": case["ce"], "content_length": case["cl"],
                 "via": case["via"], "label": case["label"], "body_len": len(body),
                 "body_hex": body.hex() if len(body) <= 2048 else body[:256].hex() + "...", "body_sha1": hashlib.sha1(body).hexdigest(), **extra,
             },
@@ -388,13 +404,15 @@ def run(ctx: Any) -> None:
     with drv.instrumented():
         for case in cases:
             cap, zd, body = case["cap"], case["zd"], case["body"]
-            app = app_for(cap, zd)
+            app = app_for(cap, zd, case["prefix"])
+            path = case["prefix"] + case["route"]
+            exempt = path == case["prefix"] + "/health" or path.startswith(case["prefix"] + "/health/")
             if case["via"] == "waitress":
-                env = drv.waitress_environ(drv.chunked_raw(body, case["ce"], case["sizes"]))
+                env = drv.waitress_environ(drv.chunked_raw(body, case["ce"], case["sizes"], path=path))
                 if env is None:
                     continue
             else:
-                env = drv.environ(body, case["ce"], case["cl"])
+                env = drv.environ(body, case["ce"], case["cl"], path=path)
             stream = env["wsgi.input"].read()
             env["wsgi.input"].seek(0)
             cl_env = int(env["CONTENT_LENGTH"]) if env.get("CONTENT_LENGTH") else None
@@ -405,7 +423,14 @@ def run(ctx: Any) -> None:
             ctx.count("impl_runs")
             ctx.tally("family", case["label"].split("/")[0])
             ctx.tally("framing", "chunked(waitress)" if case["via"] == "waitress" else ("no-content-length" if cl_env is None else ("actual" if cl_env == len(stream) else "lying")))
-            ctx.case([cap, zd, cl_env, ce_env, hashlib.sha1(stream).hexdigest()], nontrivial=ce_env is not None or cap is not None)
+            ctx.case([cap, zd, cl_env, ce_env, hashlib.sha1(stream).hexdigest(), path], nontrivial=ce_env is not None or cap is not None)
+            ctx.tally("route", path)
+            if exempt:
+                # the health endpoint itself is outside the statement (no RPC body; the cap middleware skips it by design)
+                ctx.tally("class", "exempt-health-endpoint")
+                if obs.delivered is not None or obs.method_ran:
+                    viol("health-endpoint-dispatches-rpc", "POST to the cap-exempt health endpoint reached the RPC layer", case, {"status": obs.status})
+                continue
 
             # ---------------- oracle on the implementation (independent of the model)
             wire = stream[: cl_env or 0]
@@ -534,5 +559,6 @@ def run(ctx: Any) -> None:
         "Falcon BoundedStream semantics (content_length or 0) and waitress de-chunking (CONTENT_LENGTH = real length) are taken from the installed versions",
         "WSGI header values are latin-1 strings; str.strip()/str.lower() modelled on code points 0..255 and checked around a token for all 256",
         "materialised decoded bytes = bytes returned by decoder objects (+ declared size for the one-shot zstd API); process RSS is not measured",
-        "paths exempt from the cap middleware ({prefix}/health) carry no RPC body and are not modelled",
+        "the cap-exempt health endpoint ({prefix}/health and below) carries no RPC body and is not modelled; that nothing else is exempt is "
+        "exercised on routes whose method name starts with 'health' (healthz, health_check, healthcheck/init) under prefixes '' and '/vgi'",
     ]
